@@ -278,3 +278,14 @@ Proof. split; [reflexivity|]. cbn. lia. Qed.
 
 Example C13_ex_good_steps : good_steps 2 0 0 [(UL 1 0, true); (Step 2, true); (UL 2 1, true); (Step 4, true)] 4 2.
 Proof. apply (gs_cons 2 0 0 0). apply (gs_cons 2 2 1 1). apply gs_nil. Qed.
+
+(* EvalCallback(eval_freq=1) with StopTrainingOnRewardThreshold(4) as callback_on_new_best and a no-improvement stopper after it:
+   means 1, 4: the second evaluation finds a new best 4 >= 4 and stops training at the second step *)
+Example C13_ex_threshold :
+  let t := clist [rec_ 0; eval_ 1 [1; 4; 9] (thresh 4) (noimp 1 0)] in
+  let r := learns 50 50 1 (OnPol 3) [mkCall 9 true []] (init_dst t) in
+  (exists pre, nth 0 (snd r) [] = pre ++ [(Step 2, false); (TE, true)]) /\ d_nt (fst r) = 2.
+Proof.
+  vm_compute. split; [|reflexivity].
+  exists [(TS 0, true); (RS, true); (UL 1 0, true); (Step 1, true); (UL 2 0, true)]. reflexivity.
+Qed.
